@@ -236,7 +236,7 @@ def check(ctx):
                             "zone": ("dns.versioned.Zone", "dns.btreezone.Zone")[kind], "reader": rprog,
                             "preempted_after_reader_steps": p, "granularity": "source line" if line_mode else "lock operation",
                             "detail": {k: v for k, v in fail.items() if k != "what"},
-                            "case": [4, kind, rprog, p, int(line_mode)],
+                            "case": [104, kind, rprog, p, int(line_mode)],
                         })
                         break
     ctx.notes["extra_evaluations"] = ctx.notes.get("extra_evaluations", 0) + evals
